@@ -187,6 +187,27 @@ class VAffine(_VFloatOp):
         return FloatDataType(a * data.data + b)
 
 
+class VMemoMul(_VFloatOp):
+    """data * factor, with the factor memoised ON THE INSTANCE at the first call (a lazily built table is a common
+    idiom).  Every application of a processor by the framework is a fresh application, so this equals VMul; it differs
+    only if one instance is shared between applications that should be independent (sweep steps, runs)."""
+
+    def _process_logic(self, data, factor: float):
+        REC.add("VMemoMul", data, {"factor": factor})
+        if not hasattr(self, "_memo_factor"):
+            self._memo_factor = factor
+        return FloatDataType(data.data * self._memo_factor)
+
+
+class VInPlaceMul(_VFloatOp):
+    """data * factor computed IN PLACE: mutates the input object and returns it (legal; numpy ``*=`` style)."""
+
+    def _process_logic(self, data, factor: float = 2.0):
+        REC.add("VInPlaceMul", data, {"factor": factor})
+        data.data = data.data * factor
+        return data
+
+
 class VPoly(_VFloatOp):
     """p * data + q + r + s  (three required parameters and one default: a swept element with several un-swept ones)."""
 
@@ -248,6 +269,16 @@ class VScaledProbe(_VFloatProbe):
         return data.data * scale
 
 
+class VMemoScaledProbe(_VFloatProbe):
+    """value * scale with the scale memoised on the instance at the first call (see VMemoMul)."""
+
+    def _process_logic(self, data, scale: float = 1.0):
+        REC.add("VMemoScaledProbe", data, {"scale": scale})
+        if not hasattr(self, "_memo_scale"):
+            self._memo_scale = scale
+        return data.data * self._memo_scale
+
+
 class VOffsetProbe(_VFloatProbe):
     """Returns value + offset (offset required)."""
 
@@ -291,6 +322,51 @@ class VCtxMeta(ContextProcessor):
 
     def _process_logic(self, vmeta=None):
         REC.add("VCtxMeta", None, {"vmeta": vmeta})
+
+
+class VCtxIterSum(ContextProcessor):
+    """Consumes the one-shot iterator ``items`` (from the context) and writes iter_total = sum(items)."""
+
+    @classmethod
+    def get_created_keys(cls) -> List[str]:
+        return ["iter_total"]
+
+    def _process_logic(self, items):
+        total = 0.0
+        n = 0
+        for x in items:
+            total += float(x)
+            n += 1
+        REC.add("VCtxIterSum", None, {"n": n})
+        self._notify_context_update("iter_total", [total, n])
+
+
+class VCtxMakeIter(ContextProcessor):
+    """Writes items = a fresh one-shot generator of n floats (a stream handed to the next node through the context)."""
+
+    @classmethod
+    def get_created_keys(cls) -> List[str]:
+        return ["items"]
+
+    def _process_logic(self, n: int = 3):
+        REC.add("VCtxMakeIter", None, {"n": n})
+        self._notify_context_update("items", (float(i) + 0.5 for i in range(int(n))))
+
+
+class VCtxRandom(ContextProcessor):
+    """Writes rand_draw = [random.random(), numpy.random.random()] drawn from the process-wide generators."""
+
+    @classmethod
+    def get_created_keys(cls) -> List[str]:
+        return ["rand_draw"]
+
+    def _process_logic(self):
+        import random
+
+        import numpy as np
+
+        REC.add("VCtxRandom", None, {})
+        self._notify_context_update("rand_draw", [random.random(), float(np.random.random())])
 
 
 class VCtxBadWriter(ContextProcessor):
